@@ -39,7 +39,7 @@ CLAIMED["C19"] = dict(
    technique="contract-based deductive verification in QF_BV (case split on the five sub-bucket magnitudes)")
 
 CLAIMED["C03"] = dict(
-   text="Worker-group error contract, the per-function part: WorkerGroupConf.CanContinueOnError is proved against the sentence of the property over the full domain of errors.Is facts and option flags (recorded exactly once iff reportable: panic, or none of skip/EOF/excluded and context errors only when included; continue per the table); ers.Is and IsExpiredContext against errors.Is; ers.ParsePanic: a non-nil panic value yields a non-nil result that carries ErrRecoveredPanic and the original error. Not decided by contracts: the cross-goroutine counts (items started after the first failure, exactly-once with ContinueOnError) and the WithRecover/ReadAll closure wiring (not yet under contract).",
+   text="Worker-group error contract, the per-function part: WorkerGroupConf.CanContinueOnError is proved against the sentence of the property over the full domain of errors.Is facts and option flags (recorded exactly once iff reportable: panic, or none of skip/EOF/excluded and context errors only when included; continue per the table); ers.Is and IsExpiredContext against errors.Is; ers.ParsePanic: a non-nil panic value yields a non-nil result that carries ErrRecoveredPanic and the original error. Per-worker wiring: Worker.WithRecover (the wrapped function runs once; a panic never escapes), Processor.ReadAll (the loop goes on only while the outcome is nil or a skip - after the first other outcome the worker handles no further item; a non-nil result is the last error of producer or processor), and the three places where a worker decides that it may not continue (the error filter of Iterator.ProcessParallel, the filter of Map / Transform.ProcessParallel, the generator wrapper of Producer.GenerateParallel): exactly when CanContinueOnError says no they answer io.EOF AND cancel the group's context, otherwise they do not cancel. Not decided by contracts: the cross-goroutine counts themselves (items started after the first failure <= workers follows from the proved cancellation plus each worker re-reading through the cancelled context; exactly-once with ContinueOnError), Split / channel plumbing.",
    ref="DESIGN.md 7/C03",
    note="Trusted: errors.Is as an uninterpreted relation (reflexive on non-nil, false on nil); unknown callbacks (ErrorHandler) counted by ghost calls(f).",
    technique="contract-based deductive verification (loop-free full-domain proof of the classification table)")
